@@ -382,3 +382,71 @@ func TestC01(t *testing.T) {
 		kit.Record("C01", schemaKinds(s)+strings.Join(sig, ",")+fmt.Sprint(len(kase.History)), modsAfterMidMonitor, func() interface{} { return kase }, labels...)
 	})
 }
+
+// TestC01Long: one server instance lives through more row changes than any internal
+// bounded buffer holds (the cache's event buffer holds 65536 events and the database side
+// never drains it): 1000 rows are inserted and then changed 70 times, the monitoring
+// client's cache is compared with the database along the way.
+func TestC01Long(t *testing.T) {
+	w := c16World(t)
+	srv, err := kit.StartServer(w)
+	if err != nil {
+		t.Fatalf("server: %v", err)
+	}
+	defer srv.Close()
+	bg := context.Background()
+	c, err := kit.NewClient(w, srv.Endpoint())
+	if err != nil {
+		t.Fatal(err)
+	}
+	if err := c.Connect(bg); err != nil {
+		t.Fatal(err)
+	}
+	defer c.Close()
+	if _, err := c.MonitorAll(bg); err != nil {
+		t.Fatalf("MonitorAll: %v", err)
+	}
+	writer, err := kit.DialRaw(srv.Sock)
+	if err != nil {
+		t.Fatal(err)
+	}
+	defer writer.Close()
+	const rows = 1000
+	var ins []json.RawMessage
+	for i := 0; i < rows; i++ {
+		ins = append(ins, json.RawMessage(fmt.Sprintf(`{"op":"insert","table":"T2","row":{"v":%d.5}}`, i)))
+	}
+	kase := map[string]interface{}{"rows": rows}
+	if reply, err := writer.Transact("DB", ins); err != nil || strings.Contains(string(reply), `"error"`) {
+		kit.Fail(t, "C01", "long.transact-error", kase, "inserting %d rows: %v %.200s", rows, err, reply)
+	}
+	compare := func(round int) {
+		db, err := srv.Snapshot()
+		if err != nil {
+			t.Fatalf("snapshot: %v", err)
+		}
+		cached, err := kit.CacheRows(w, c, "T2")
+		if err != nil {
+			t.Fatalf("cache: %v", err)
+		}
+		if d := kit.DiffStates(kit.State{"T2": db["T2"]}, kit.State{"T2": cached}); len(d) > 0 {
+			kase["round"] = round
+			if len(d) > 6 {
+				d = append(d[:6], fmt.Sprintf("... and %d more", len(d)-6))
+			}
+			kit.Fail(t, "C01", "cache.differs", kase, "after %d row changes on one server the cache differs from the database:\n%s", rows*(round+1), strings.Join(d, "\n"))
+		}
+	}
+	compare(0)
+	for round := 1; round <= 70; round++ {
+		reply, err := writer.Transact("DB", []json.RawMessage{json.RawMessage(`{"op":"mutate","table":"T2","where":[],"mutations":[["v","+=",1]]}`)})
+		if err != nil || !strings.Contains(string(reply), fmt.Sprintf(`"count":%d`, rows)) {
+			kase["round"] = round
+			kit.Fail(t, "C01", "long.transact-error", kase, "round %d (after %d row changes on this server): %v %.300s", round, rows*round, err, reply)
+		}
+		if round%10 == 0 || round > 64 {
+			compare(round)
+		}
+	}
+	kit.Record("C01", "long-history", true, func() interface{} { return kase }, "long-history:71000-row-changes")
+}
